@@ -528,42 +528,34 @@ int32_t jls_wr_fsr_data(struct jls_core_fsr_s * self, int64_t sample_id, const v
             return 0;
         }
         const uint8_t * data_u8 = (const uint8_t *) data;
-        const uint8_t * data_end_u8 = data_u8 + (data_length * sample_size_bits + 7) / 8;
         uint32_t ffwd = (uint32_t) (sample_id_next - sample_id);
         data_length -= ffwd;
-        if (sample_size_bits >= 8) {
-            data = data_u8 + ffwd * (sample_size_bits / 8);
+        uint64_t ffwd_bits = ((uint64_t) ffwd) * sample_size_bits;
+        data_u8 += ffwd_bits / 8;
+        uint8_t shift = (uint8_t) (ffwd_bits % 8);
+        if (shift == 0) {
+            data = data_u8;
         } else {
-            uint32_t shift = 0;
-            uint32_t shift_samples = 0;
-            if (sample_size_bits == 4) {
-                shift = (ffwd & 1) ? 4 : 0;
-                shift_samples = 1;
-            } else if (sample_size_bits == 1) {
-                shift = ffwd % sample_size_bits;
-                shift_samples = shift;
-            }
-            if (shift == 0) {
-                data = data_u8 + ffwd * (sample_size_bits / 8);
-            } else {
-                while (data_u8 < data_end_u8) {
-                    size_t sz = data_end_u8 - data_u8;
-                    if (sz > (sizeof(self->buffer_u64) - 8)) {
-                        sz = sizeof(self->buffer_u64) - 8;
+            // The first new sample starts inside a byte: realign through the scratch buffer.
+            const uint32_t chunk_max = (uint32_t) (((sizeof(self->buffer_u64) - 8) * 8) / sample_size_bits);
+            uint8_t * dst_u8 = (uint8_t *) self->buffer_u64;
+            while (data_length) {
+                uint32_t chunk = (data_length < chunk_max) ? data_length : chunk_max;
+                size_t chunk_bits = ((size_t) chunk) * sample_size_bits;
+                size_t dst_sz = (chunk_bits + 7) / 8;
+                size_t src_sz = (chunk_bits + shift + 7) / 8;
+                for (size_t idx = 0; idx < dst_sz; ++idx) {
+                    uint16_t v = data_u8[idx];
+                    if ((idx + 1) < src_sz) {
+                        v |= ((uint16_t) data_u8[idx + 1]) << 8;
                     }
-                    memcpy(self->buffer_u64, data_u8, sz);
-                    self->buffer_u64[(sz / 8) + 1] = 0;
-                    size_t sz_words = (sz + 7) / 8;
-                    for (uint64_t idx = 0; idx < sz_words; ++idx) {
-                        self->buffer_u64[idx] = (self->buffer_u64[idx] >> shift)
-                                | (self->buffer_u64[idx + 1] << (64 - shift));
-                    }
-                    size_t entries = sz * (8 / sample_size_bits) - shift_samples;
-                    ROE(wr_data_inner(self, self->buffer_u64, (uint32_t) entries));
-                    data_u8 += sz - 1;
+                    dst_u8[idx] = (uint8_t) (v >> shift);
                 }
-                return 0;
+                ROE(wr_data_inner(self, self->buffer_u64, chunk));
+                data_u8 += chunk_bits / 8;  // whole bytes, except for the last chunk
+                data_length -= chunk;
             }
+            return 0;
         }
     } else {
         JLS_LOGW("fsr %d skip: in=%" PRIi64 " expect=%" PRIi64 ", skipped=%" PRIi64,
